@@ -598,6 +598,37 @@ func facts() map[string]any {
 	out["reader_sender_slot_past_workers"] = slotPast
 	out["senders_sized_workers_plus_readers"] = sendersSized
 
+	// --- upstream read buffers: no function both defers ReleaseBuf and calls it on a branch
+	dc := parseDir("internal/dnsclient")
+	doubleSites := []string{}
+	for _, f := range dc.files {
+		for _, d := range f.Decls {
+			fd, ok := d.(*ast.FuncDecl)
+			if !ok || fd.Body == nil {
+				continue
+			}
+			deferred, plain := 0, 0
+			ast.Inspect(fd.Body, func(x ast.Node) bool {
+				switch v := x.(type) {
+				case *ast.DeferStmt:
+					if id, ok := v.Call.Fun.(*ast.Ident); ok && id.Name == "ReleaseBuf" {
+						deferred++
+						return false
+					}
+				case *ast.CallExpr:
+					if id, ok := v.Fun.(*ast.Ident); ok && id.Name == "ReleaseBuf" {
+						plain++
+					}
+				}
+				return true
+			})
+			if deferred > 0 && plain > 0 {
+				doubleSites = append(doubleSites, fd.Name.Name)
+			}
+		}
+	}
+	out["dnsclient_defer_and_branch_release"] = doubleSites
+
 	// --- capacity pinning shapes
 	out["beginwire_pins_capacity"] = hasFullSliceExpr(mw.method("responseWriter", "BeginWire"), "need")
 	out["trypack_pins_capacity"] = hasFullSliceExpr(wr.function("TryPack"), "")
